@@ -428,7 +428,7 @@ Lemma rel_restrict sc e0 st0 e st E E' stL stL' :
 Proof.
   intros H0 (Hfs & W1 & Hs1 & [Hb Hfb Hp Hpb HpE HpG Hwf Ht Hl HW]) Hk Htmp Hnc.
   split.
-  { intros f ar Hin HK. destruct (Hfs f ar Hin HK) as (c & p & d & A & B & C). exists c, p, d. split; [exact A | split; [|exact C]].
+  { intros f ar Hin HK. destruct (Hfs f ar Hin HK) as (c & p & A & B & C). exists c, p. split; [exact A | split; [|exact C]].
     rewrite <- (Hk f); [exact B|]. right. unfold fnames. change f with (fst (f, ar)). apply in_map. exact Hin. }
   exists W1. split; [exact Hs1|]. constructor.
   - exact Hb.
@@ -461,7 +461,7 @@ Lemma rel_shrink sc sc' e e' st0 E0 stL0 st E stL :
 Proof.
   intros H0 (Hfs & W1 & Hs1 & [Hb Hfb Hp Hpb HpE HpG Hwf Ht Hl HW]) Hincl Hs.
   split.
-  { intros f ar Hin HK. destruct (Hfs f ar Hin HK) as (c & p & d & A & B & C). exists c, p, d. split; [|split; [exact B | exact C]].
+  { intros f ar Hin HK. destruct (Hfs f ar Hin HK) as (c & p & A & B & C). exists c, p. split; [|split; [exact B | exact C]].
     rewrite <- (Hs f); [exact A|]. right. right. unfold fnames. change f with (fst (f, ar)). apply in_map. exact Hin. }
   exists W1. split; [exact Hs1|]. constructor.
   - apply (r_scb _ _ _ _ _ _ _ _ _ _ _ H0).
@@ -557,14 +557,14 @@ Proof.
   destruct H0 as (Hfs0 & H0).
   assert (Hww1 : wsub W W1) by (eapply wsub_trans; eassumption).
   split.
-  { intros f ar Hin HK. destruct (Hfs0 f ar Hin HK) as (c0 & p0 & d0 & A0 & _ & C0 & D0 & F0).
-    destruct (Hfs f ar (Hfi _ Hin) HK) as (c & p & d & A & B & C & _).
+  { intros f ar Hin HK. destruct (Hfs0 f ar Hin HK) as (c0 & p0 & A0 & _ & C0).
+    destruct (Hfs f ar (Hfi _ Hin) HK) as (c & p & A & B & C).
     assert (Hc : c = c0).
     { rewrite (Hs f) in A; [congruence|]. right. right. unfold fnames. change f with (fst (f, ar)). apply in_map. exact Hin. }
     subst c.
     destruct Hww1 as (_ & HF & _). destruct Hs1 as (_ & HF1 & _).
-    destruct (wi_Ffun _ _ _ _ _ _ _ _ _ _ _ HW c0 p d p0 d0 (HF1 _ _ _ C) (HF _ _ _ C0)) as [-> ->].
-    exists c0, p0, d0. auto. }
+    destruct (wi_Ffun _ _ _ _ _ _ _ _ _ _ _ HW c0 p ar p0 ar (HF1 _ _ _ C) (HF _ _ _ C0)) as [-> _].
+    exists c0, p0. auto. }
   exists W1. split; [exact Hww1|]. constructor.
   - destruct H0 as (W0 & _ & H0). apply (r0_scb _ _ _ _ _ _ _ _ _ _ _ H0).
   - destruct H0 as (W0 & _ & H0). apply (r0_flb _ _ _ _ _ _ _ _ _ _ _ H0).
